@@ -16,6 +16,7 @@
 package jwt
 
 import (
+	"bytes"
 	"encoding/json"
 	"errors"
 	"fmt"
@@ -146,8 +147,12 @@ func (sk *SigningKeys) UnmarshalJSON(data []byte) error {
 		*sk = make(SigningKeys)
 	}
 	// read an array - we can have a string or an map
+	// keep numbers as written: scope templates carry int64 limits that a
+	// float64 cannot hold
 	var a []interface{}
-	if err := json.Unmarshal(data, &a); err != nil {
+	dec := json.NewDecoder(bytes.NewReader(data))
+	dec.UseNumber()
+	if err := dec.Decode(&a); err != nil {
 		return err
 	}
 	for _, i := range a {
